@@ -71,6 +71,8 @@ class Canon:
             return ('S', tuple(sorted((c(x, memo) for x in o), key=repr)))
         if isinstance(o, types.MethodType):
             return ('M', o.__func__.__qualname__, c(o.__self__, memo))
+        if isinstance(o, types.FunctionType) and hasattr(o, 'hid'):
+            return ('H', o.hid)      # harness handler / hook with a stable identity
         if isinstance(o, (types.FunctionType, types.BuiltinFunctionType, types.BuiltinMethodType)):
             return ('F', getattr(o, '__module__', None), getattr(o, '__qualname__', repr(type(o))))
         if isinstance(o, type):
